@@ -17,9 +17,12 @@ CONFIGS = {
     "open": (None, {}),
     "srvpw": ("srvpw", {}),
     "users": (None, {"cfgu": (None, None), "cfgp": ("userpw", None), "cfgm": (None, "*!*@127.0.0.1"),
-                     "cfgx": (None, "*!*@10.*"), "cfgpm": ("userpw", "*!~cfgpm@127.*"), "cfgq": ("otherpw", None)}),
+                     "cfgx": (None, "*!*@10.*"), "cfgpm": ("userpw", "*!~cfgpm@127.*"), "cfgq": ("otherpw", None),
+                     # names are compared as written: capitals in a configured name are nothing special
+                     "CfgCap": ("cappw", None), "CfgMask": (None, "*!*@10.*")}),
     "srvpw+users": ("srvpw", {"cfgu": (None, None), "cfgp": ("userpw", None), "cfgx": ("userpw", "*!*@10.*"),
-                              "cfgm": (None, "gate*!*@*"), "cfgq": ("otherpw", None)}),
+                              "cfgm": (None, "gate*!*@*"), "cfgq": ("otherpw", None), "CfgCap": ("cappw", None),
+                              "CfgMask": (None, "*!*@10.*")}),
     # "exactly that password": a long one, told apart from others by its last characters only
     "longpw": ("s" * 64 + "-and-a-tail-that-counts", {}),
 }
@@ -391,6 +394,14 @@ def core_sequences(cfgname):
         seqs.append(pw + ["NICK taken", ulast, "NICK gate2"])
         seqs.append(pw + [ulast, "NICK taken", "NICK taken", "NICK gate2"])
         seqs.append(pw + ["CAP LS 302", "NICK gate1", "@rival", ulast, "CAP END", "NICK gate2"])
+    # configured names with capital letters, and the same names in another case (which are nobody's)
+    if users:
+        for pw in (None, "wrong", "cappw", spw, "userpw"):
+            head = ["PASS " + pw] if pw else []
+            for name in ("CfgCap", "cfgcap", "CFGCAP", "CfgMask", "cfgmask"):
+                seqs.append(head + ["NICK gate1", "USER %s 0 * :C" % name])
+                seqs.append(head + ["USER %s 0 * :C" % name, "NICK gate1", "JOIN #o"])
+            seqs.append(head + ["CAP LS 302", "NICK gate1", "USER CfgCap 0 * :C", "CAP END"])
     # the connection gives up with QUIT (one of the six commands it may use): whoever owns the nickname it once claimed
     # is not concerned
     for pre in ([], ["PASS wrong"], ["CAP LS 302"]):
